@@ -136,6 +136,44 @@ func alphaCmd(args []string) error {
 			}()})
 		}
 	}
+	// fully transparent pixels decode to the zero colour with alpha 0, whatever the
+	// (non-premultiplied, or invalidly premultiplied) channels say, through every constructor
+	for i := 0; i < 400; i++ {
+		r, g, b := uint16(rng.Intn(65536)), uint16(rng.Intn(65536)), uint16(rng.Intn(65536))
+		if i < 8 {
+			r, g, b = []uint16{65535, 0, 0, 65535, 1, 0, 255, 256}[i], []uint16{0, 65535, 0, 65535, 0, 1, 0, 0}[i], []uint16{0, 0, 65535, 65535, 0, 0, 255, 1}[i]
+		}
+		for _, sp := range spaces {
+			type res struct {
+				via string
+				c   [3]float32
+				a   float32
+			}
+			var rs []res
+			// ColorFromNRGBA is the one constructor that does not divide by alpha: it keeps the
+			// non-premultiplied colour of a transparent pixel (an observation, not judged: the
+			// colour under zero alpha is not observable after any conversion back); only its
+			// alpha is required to be exactly 0
+			_, an := sp.fromNRGB(color.NRGBA{uint8(r >> 8), uint8(g >> 8), uint8(b >> 8), 0})
+			rs = append(rs, res{"ColorFromNRGBA (alpha only)", [3]float32{0, 0, 0}, an})
+			p, ap := sp.fromRGBA(color.RGBA{uint8(r >> 8), uint8(g >> 8), uint8(b >> 8), 0})
+			rs = append(rs, res{"ColorFromRGBA", [3]float32{p.R, p.G, p.B}, ap})
+			for _, c := range []color.Color{color.NRGBA64{r, g, b, 0}, color.NRGBA{uint8(r >> 8), uint8(g), uint8(b), 0}, color.RGBA64{0, 0, 0, 0}} {
+				e, ae := sp.fromEnc(c)
+				rs = append(rs, res{fmt.Sprintf("ColorFromEncodedColor(%T)", c), [3]float32{e.R, e.G, e.B}, ae})
+				l, al := sp.fromLin(c)
+				rs = append(rs, res{fmt.Sprintf("ColorFromLinearColor(%T)", c), [3]float32{l.R, l.G, l.B}, al})
+				lc, ec := sp.linCol(c), sp.encCol(c)
+				sink.put(map[string]interface{}{"kind": "agree", "what": sp.name + " Linearise/EncodeColor of a transparent pixel is transparent black",
+					"a": []int{int(lc.R), int(lc.G), int(lc.B), int(lc.A), int(ec.R), int(ec.G), int(ec.B), int(ec.A)}, "b": []int{0, 0, 0, 0, 0, 0, 0, 0}})
+			}
+			for _, x := range rs {
+				// NaN != 0, so compare bit patterns with +0 (a -0 or NaN channel is not the zero colour)
+				sink.put(map[string]interface{}{"kind": "agree", "what": sp.name + "." + x.via + " of a fully transparent pixel",
+					"a": []int{bits(x.c[0]), bits(x.c[1]), bits(x.c[2]), bits(x.a)}, "b": []int{0, 0, 0, 0}})
+			}
+		}
+	}
 	// opaque colours: the three constructors give the same linear value (bit-for-bit)
 	for i := 0; i < 3000; i++ {
 		r, g, b := uint8(rng.Intn(256)), uint8(rng.Intn(256)), uint8(rng.Intn(256))
